@@ -42,6 +42,12 @@ CLAIMED["C14"] = ("For threaded_rod, tap, hex_bolt, hex_nut and external_cylinde
 CLAIMED["C16"] = ("The size-table lookup (next smaller listed size, M2 below) and the table facts (internal > external, pitch < diameter, chamfer size above the oversize the builders pass) are kernel-decided over the 56 rows regenerated from metric_thread.rs on every run; threaded_cylinder is modelled step by step (lead-in/out counters, profiles, 8-triangle strips, both hands) and equals the crate's mesh bit for bit, for table sizes through the public builders and for free proportions through the hook. Oracles on implementation meshes: closed/oriented/outward, starts at z = 0, every vertex between minor and major radius with minor = major - 2*(5/8)*(sqrt 3/2)*pitch, one pitch per revolution within the step-count rounding, hand.",
   "Real arithmetic for the proportion theorems; radii/pitch/hand of the generated mesh are checked per run (tolerance 1e-9), the invariant proof of the step fold is listed in the evidence as far as it is closed.",
   "Lean 4 model + decide +kernel over the regenerated thread table + Lean-executed oracles + differential correspondence harness", "5/C16")
+CLAIMED["C15"] = ("The six Pipe builders are modelled as trees; theorems over R: a straight/tapered pipe is the solid pipe minus a coaxial bore of diameter od - 2*wall (so removing the bore gives exactly the *_solid pipe), the bore's z-extent strictly contains the body's for either centre setting, hollow and solid curved pipes share one body whose translations cancel so the cross-section starts centred on the origin, and the assertions (bore not positive, angle outside (0,360]) reject. The model equals the crate's trees exactly; the same relations are evaluated on every implementation tree.",
+  "z-extents use the documented meaning of OpenSCAD's cylinder(h, center); real arithmetic.",
+  "Lean 4 theorems over R on the tree model + exact structural oracle + differential correspondence harness", "5/C15")
+CLAIMED["C17"] = ("polar_array is proved (for every subtree, count and degrees <= 360) to be the subtree plus exactly count placements rotate([0,0,-k*step]) of the unmodified subtree, with step = 360/count for a full circle and degrees/(count-1) otherwise (peeling theorem by induction over the fold); external_cylinder_chamfer is proved to be the union of one ring cutter and the same ring under translate([0,0,h]) rotate([180,0,0]) — the mirror image about the mid-height plane composed with y -> -y, which fixes a full revolve — built from the chamfer outline revolved with the requested angle and $fn. Model = crate on every generated case; the same structure is checked on the implementation's trees.",
+  "Real arithmetic; 'distinct placements' is read as the placement list (copy 0 coincides with the unrotated base).",
+  "Lean 4 theorems (induction over the fold) + exact structural oracle + differential correspondence harness", "5/C17")
 NOT_YET = {
 }
 ALL = ["C%02d" % i for i in range(1, 20)]
